@@ -149,6 +149,7 @@ func (t *fnTrans) specEnv(cur, old *State) *specEnv {
 	e := &specEnv{t: t, vars: map[string]Val{}, lvs: map[string]*LVal{}, cur: cur, old: old, pkg: t.fn.Pkg.Pkg}
 	for k, v := range t.params {
 		e.vars[k] = v
+		e.vars[k+"_0"] = v // entry value of a parameter that the code reassigns
 	}
 	for k, v := range t.freeVarVals {
 		e.vars[k] = v
@@ -798,6 +799,21 @@ func (e *specEnv) call(n *ast.CallExpr) Val {
 			}
 			h := e.t.heapGet(e.cur, elemHeap(sl.Elem(), ".len"), arr2Sort("Int"))
 			return Val{tInt, []string{fmt.Sprintf("(ssum %s %s %s %s)", sel(h, sv.C[0]), add(sv.C[1], iv), add(sv.C[1], sv.C[2]), cv)}}
+		case "gfield":
+			// gfield(x, "name"): ghost field of the object x (heap GF.name, Int -> Int)
+			v := e.eval(n.Args[0])
+			bl, ok := n.Args[1].(*ast.BasicLit)
+			if !ok {
+				e.errorf("gfield: second argument must be a string literal")
+				return bad(tInt)
+			}
+			hn := "GF." + strings.Trim(bl.Value, "\"")
+			e.t.eng.heapSort[hn] = "(Array Int Int)"
+			ref := v.C[0]
+			if _, isIface := under(v.T).(*types.Interface); isIface {
+				ref = v.C[1]
+			}
+			return Val{tInt, []string{sel(e.t.heapGet(e.cur, hn, "(Array Int Int)"), ref)}}
 		case "pow2":
 			v := e.eval(n.Args[0])
 			return Val{tBool, []string{"(pow2 " + v.C[0] + ")"}}
@@ -994,7 +1010,26 @@ func (e *specEnv) call(n *ast.CallExpr) Val {
 		case "held":
 			v := e.eval(n.Args[0])
 			h := e.t.heapGet(e.cur, "$held", "(Array Int Int)")
-			return Val{tBool, []string{not(eq(sel(h, v.C[0]), "0"))}}
+			ref := v.C[0]
+			if _, isIface := under(v.T).(*types.Interface); isIface {
+				ref = v.C[1]
+			}
+			return Val{tBool, []string{not(eq(sel(h, ref), "0"))}}
+		case "heldsame":
+			// the set of locks held equals the one at function entry
+			cur := e.t.heapGet(e.cur, "$held", "(Array Int Int)")
+			old := e.t.heapGet(e.old, "$held", "(Array Int Int)")
+			return Val{tBool, []string{eq(cur, old)}}
+		case "heldonly":
+			// exactly the entry set plus the given lock
+			v := e.eval(n.Args[0])
+			ref := v.C[0]
+			if _, isIface := under(v.T).(*types.Interface); isIface {
+				ref = v.C[1]
+			}
+			cur := e.t.heapGet(e.cur, "$held", "(Array Int Int)")
+			old := e.t.heapGet(e.old, "$held", "(Array Int Int)")
+			return Val{tBool, []string{eq(cur, sto(old, ref, "1"))}}
 		case "lockstate":
 			v := e.eval(n.Args[0])
 			h := e.t.heapGet(e.cur, "$held", "(Array Int Int)")
